@@ -1286,9 +1286,79 @@ def _state_diff(mst, st) -> str:
     return ", ".join(f"{k!r}: model {mst.get(k)!r:.30} impl {st.get(k)!r:.30}" for k in ks[:3]) or "same state"
 
 
+class _Probe:
+    """Stand-in for Ctx while shrinking: records oracle failures, matches known findings the same way."""
+
+    def __init__(self, ctx):
+        self.known, self.fails, self.thorough, self.rng = ctx.known, [], ctx.thorough, ctx.rng
+        self.known_hit = {}
+
+    def count(self, *a, **k):
+        pass
+
+    def sample(self, *a, **k):
+        pass
+
+    def oracle_fail(self, stream, case, what, cls=None):
+        for k in self.known:
+            if cls is not None and k.get("match", {}).get("class") == cls and \
+                    k.get("match", {}).get("stream", stream) == stream:
+                return
+        self.fails.append({"stream": stream, "case": case, "what": what, "class": cls})
+
+
+def shrink_failures(ctx, repos, first_new: int, limit: int = 2):
+    """Delta-debug the sequence cases of the oracle failures recorded since index `first_new`: drop
+    operations and initial refs while an unmatched failure of the same stream still shows at the end."""
+    done = 0
+    for f in ctx.oracle_failures[first_new:]:
+        c = f["case"]
+        if done >= limit or "backend" not in c or f["stream"].startswith("search"):
+            continue
+        done += 1
+        backend = c["backend"]
+        init = init_from_json(c["init"])
+        ops = [op_from_json(o) for o in c["ops"]]
+        base = f["stream"].split(".git")[0]
+
+        def fails(init2, ops2):
+            pr = _Probe(ctx)
+            try:
+                run_sequence(pr, repos, backend, init2, ops2, stream=base, git_every=0)
+            except core.InfraError:
+                return None
+            for x in pr.fails:
+                if x["stream"] == f["stream"] and x["class"] == f["class"] and \
+                        (x["case"].get("failing_step") in (None, len(ops2) - 1)):
+                    return x
+            return None
+        changed = True
+        best = None
+        while changed:
+            changed = False
+            for i in range(len(ops) - 1):
+                trial = ops[:i] + ops[i + 1:]
+                r = fails(init, trial)
+                if r is not None:
+                    ops, best, changed = trial, r, True
+                    break
+            if changed:
+                continue
+            for i in range(len(init)):
+                trial = init[:i] + init[i + 1:]
+                r = fails(trial, ops)
+                if r is not None:
+                    init, best, changed = trial, r, True
+                    break
+        if best is not None:
+            f["case"] = seq_case(backend, init, ops, len(ops) - 1)
+            f["what"] = best["what"] + "  [shrunk from " + str(len(c["ops"])) + " operations]"
+
+
 def stream_sequences(ctx, repos, n_seq, n_ops=30, git_every=0):
     rng = ctx.rng
     results = []
+    n_fail0 = len(ctx.oracle_failures)
     for i in range(n_seq):
         init = gen_init(rng, repos)
         primary = BACKENDS[i % len(BACKENDS)] if i % 2 else "disk"
@@ -1305,6 +1375,7 @@ def stream_sequences(ctx, repos, n_seq, n_ops=30, git_every=0):
             compare_with_model(ctx, results)
             results = []
     compare_with_model(ctx, results)
+    shrink_failures(ctx, repos, n_fail0)
 
 
 # ------------------------------------------------------------------------------------------------
